@@ -271,66 +271,3 @@ fn c17_canary() {
     assert!(src.pos == 4, "canary: must be reported as failing");
     std::mem::forget(v);
 }
-
-// ------------------------------------------------------------------ C17.d key lookups (hashed and binary-searched)
-// From a table of N records with EVERY combination of u32 keys (duplicates included): a lookup - through the hashed
-// map built by RecordSet::new and through create_sorted_key_map + binary search - returns a record carrying the
-// requested key whenever one exists and nothing when none exists; both paths agree on presence.
-fn key_of(r: &Record) -> u32 {
-    match r.get_value(0) { Some(Value::UInt32(k)) => *k, _ => { assert!(false, "key field lost its value"); 0 } }
-}
-
-fn key_lookup<const N: usize>() {
-    let mut schema = Schema::new("t");
-    schema.add_field(SchemaField::new("id", FieldType::UInt32));
-    schema.key_field_index = Some(0);
-    let schema = Arc::new(schema);
-    let keys: [u32; N] = kani::any();
-    let mut records = Vec::with_capacity(N);
-    let mut i = 0;
-    while i < N {
-        records.push(Record::new(vec![Value::UInt32(keys[i])], Some(Arc::clone(&schema))));
-        i += 1;
-    }
-    let sb = StringBlock::parse(&mut Src::<1>::new([0], 1), 0, 1).unwrap();
-    let mut rs = RecordSet::new(records, Some(Arc::clone(&schema)), sb);
-    let q: u32 = kani::any();
-    let mut present = false;
-    let mut i = 0;
-    while i < N { if keys[i] == q { present = true; } i += 1; }
-    // hashed path
-    let h = rs.get_record_by_key(q);
-    kani::cover!(h.is_some());
-    match h {
-        Some(r) => assert!(key_of(r) == q, "hashed key lookup returned a record carrying another key"),
-        None => assert!(!present, "hashed key lookup misses a key that is in the table"),
-    }
-    // binary-searched path
-    let ok = rs.create_sorted_key_map();
-    assert!(ok.is_ok());
-    let b = rs.get_record_by_key_binary_search(q);
-    kani::cover!(b.is_some());
-    kani::cover!(b.is_none());
-    match b {
-        Some(r) => assert!(key_of(r) == q, "binary-searched key lookup returned a record carrying another key"),
-        None => assert!(!present, "binary-searched key lookup misses a key that is in the table"),
-    }
-    // and the hashed map rebuilt by create_sorted_key_map still agrees
-    let h2 = rs.get_record_by_key(q);
-    assert!(h2.is_some() == present && (h2.is_none() || key_of(h2.unwrap()) == q), "hashed lookup after create_sorted_key_map disagrees");
-    std::mem::forget((rs, ok));
-}
-
-macro_rules! c17d {
-    ($name:ident, $n:expr, $unw:expr) => {
-        #[kani::proof]
-        #[kani::unwind($unw)]
-        #[kani::stub(std::fmt::format, vio::fmt_stub)]
-        #[kani::stub(std::hash::RandomState::new, rs_stub)]
-        fn $name() { key_lookup::<$n>() }
-    };
-}
-c17d!(c17d_key_lookup_n2, 2, 8);
-c17d!(c17d_key_lookup_n3, 3, 10);
-c17d!(c17d_key_lookup_n4, 4, 12);
-c17d!(c17d_key_lookup_n5, 5, 14);
